@@ -2,52 +2,13 @@ import Driver.Common
 import Driver.GTreeIO
 import GeosModel.Base.F64
 import GeosModel.Model.Relate.Ref
+import GeosModel.Model.Relate.Pred
+import GeosModel.Base.Env
+import Driver.Flatten
 /-! Driver for C01 (and the matrix part of C02): evaluates the reference DE-9IM on a grid pair and
 compares every observation the harness made on GEOS with what the definitions assign to that matrix. -/
 namespace Driver.C01
-open GeosModel GeosModel.Relate GeosModel.Kernel
-
-/-- split a list of tokens at "|" -/
-def splitBar (l : List String) : List (List String) :=
-  let (cur, acc) := l.foldl (fun (st : List String × List (List String)) t =>
-    if t == "|" then ([], st.1.reverse :: st.2) else (t :: st.1, st.2)) ([], [])
-  (cur.reverse :: acc).reverse
-
-def seqOrds (s : CSeq) : List UInt64 := s.pts.flatMap fun c => [c.x, c.y]
-
-partial def ordsOf : G → List UInt64
-  | .point s | .lineString s | .linearRing s | .circularString s => seqOrds s
-  | .polygon sh hs => seqOrds sh ++ hs.flatMap seqOrds
-  | .compoundCurve gs | .curvePolygon gs | .multiPoint gs | .multiLineString gs | .multiPolygon gs
-  | .multiCurve gs | .multiSurface gs | .collection gs => gs.flatMap ordsOf
-
-partial def hasCurve : G → Bool
-  | .circularString _ | .compoundCurve _ | .curvePolygon _ | .multiCurve _ | .multiSurface _ => true
-  | .multiPoint gs | .multiLineString gs | .multiPolygon gs | .collection gs => gs.any hasCurve
-  | _ => false
-
-structure FlatZ where
-  f : Flat
-  zeroLen : Bool      -- a zero-length line was turned into a point
-
-partial def flattenG (toI : UInt64 → Int) (acc : FlatZ) : G → FlatZ
-  | .point s =>
-    match s.pts with
-    | [] => acc
-    | c :: _ => { acc with f := { acc.f with pts := acc.f.pts ++ [⟨toI c.x, toI c.y⟩] } }
-  | .lineString s | .linearRing s =>
-    let ps : List Pt := s.pts.map fun c => ⟨toI c.x, toI c.y⟩
-    match ps with
-    | [] => acc
-    | p :: r =>
-      if r.all (· == p) then { f := { acc.f with pts := acc.f.pts ++ [p] }, zeroLen := true }
-      else { acc with f := { acc.f with lines := acc.f.lines ++ [ps] } }
-  | .polygon sh hs =>
-    if sh.pts.isEmpty then acc else
-      let ring (s : CSeq) : List Pt := s.pts.map fun c => ⟨toI c.x, toI c.y⟩
-      { acc with f := { acc.f with polys := acc.f.polys ++ [ring sh :: (hs.filter (!·.pts.isEmpty)).map ring] } }
-  | .multiPoint gs | .multiLineString gs | .multiPolygon gs | .collection gs => gs.foldl (flattenG toI) acc
-  | _ => acc
+open GeosModel GeosModel.Relate GeosModel.Kernel Driver.Flatten
 
 def kv (l : List String) : List (String × String) :=
   l.filterMap fun t => match t.splitOn "=" with
@@ -85,7 +46,10 @@ def check (line : String) : String :=
         let get (k : String) : String := (o.lookup k).getD "?"
         let zl := A.zeroLen || B.zeroLen
         let m2 := refIM .mod2 A.f B.f
-        let bad (k i r : String) : Option String := if i == r then none else some s!"bad {k} impl={i} ref={r} dims={dA},{dB}"
+        -- structural feature used to classify findings: do a segment of A and a segment of B overlap collinearly?
+        let ovl := A.f.segs.any fun s => B.f.segs.any fun t => segRel s.p s.q t.p t.q == SegRel.overlap
+        let bad (k i r : String) : Option String :=
+          if i == r then none else some s!"bad {k} impl={i} ref={r} dims={dA},{dB} ovl={if ovl then 1 else 0}"
         let rules : List (String × BNRule) := [("m1", .mod2), ("m2", .endpoint), ("m3", .multivalent), ("m4", .monovalent)]
         let ruleChecks : List (Option String) := rules.map fun (k, r) =>
           if zl && r != .mod2 then none else bad k (get k) (refIM r A.f B.f).toStr
@@ -109,9 +73,55 @@ def check (line : String) : String :=
     | _, _ => "parse-error"
   | _ => "bad-line"
 
+/-! #### stream pred-sm -/
+
+def parseKind (s : String) : Option Kind :=
+  match s.splitOn ":" with
+  | ["intersects"] => some .intersects | ["disjoint"] => some .disjoint | ["contains"] => some .contains
+  | ["within"] => some .within | ["covers"] => some .covers | ["coveredBy"] => some .coveredBy
+  | ["crosses"] => some .crosses | ["equalsTopo"] => some .equalsTopo | ["overlaps"] => some .overlaps
+  | ["touches"] => some .touches
+  | ["pattern", p] => some (.pattern (patOfChars p.toList))
+  | _ => none
+
+def parseBox : List String → Option Env
+  | ["n"] => some none
+  | [a, b, c, d] => do some (some ⟨← a.toInt?, ← b.toInt?, ← c.toInt?, ← d.toInt?⟩)
+  | _ => none
+
+def envEquals : Env → Env → Bool
+  | none, o => o.isNone
+  | some a, some o => a == o
+  | some _, none => false
+
+def stChar (s : PState) : Char := match s.value with | none => 'u' | some true => 't' | some false => 'f'
+
+def loc3 (c : Char) : Option Loc3 := if c == '0' then some .I else if c == '1' then some .B else if c == '2' then some .E else none
+
+def predSM (line : String) : String :=
+  match splitBar (Driver.tokens line) with
+  | [["S", k, dA, dB], ea, eb, ups] =>
+    match parseKind k, dA.toInt?, dB.toInt?, parseBox ea, parseBox eb with
+    | some k, some dA, some dB, some ea, some eb =>
+      let facts : EnvFacts := { intersects := Env.inter ea eb, aCoversB := Env.covers ea eb, bCoversA := Env.covers eb ea,
+                                equal := envEquals ea eb, bothNull := ea.isNone && eb.isNone }
+      let s0 := (PState.new k).initDim dA dB
+      let s1 := s0.initEnv facts
+      let (s, tr) := ups.foldl (fun (st : PState × List Char) u =>
+        match u.toList with
+        | [a, b, d] =>
+          match loc3 a, loc3 b, (String.ofList [d]).toInt? with
+          | some a, some b, some d => let s' := st.1.update a b d; (s', stChar s' :: st.2)
+          | _, _, _ => st
+        | _ => st) (s1, [stChar s1, stChar s0])
+      String.ofList ((stChar s.finish :: tr).reverse)
+    | _, _, _, _, _ => "parse-error"
+  | _ => "bad-line"
+
 end Driver.C01
 
 def main (args : List String) : IO UInt32 := do
   match args with
   | ["relate-grid"] => Driver.loop (← IO.getStdin) (← IO.getStdout) Driver.C01.check; return 0
+  | ["pred-sm"] => Driver.loop (← IO.getStdin) (← IO.getStdout) Driver.C01.predSM; return 0
   | _ => IO.eprintln "usage: drv_c01 relate-grid"; return 2
